@@ -419,7 +419,7 @@ def _f3_base():
 
 
 N_F3_INNER = 14
-N_F3_FORMS = 16
+N_F3_FORMS = 18
 
 
 def _f3_inner(rng, pool, which=None):
@@ -498,6 +498,17 @@ def _f3_meta_goal(rng, pool, gvar, which=None, form=None):
     if form == 14:
         L1 = var("L1")
         return call(fun("findall", L1, fun("findall", _template(rng, t, pool), t, L1), L))
+    if form in (16, 17):
+        # a closure inside a closure: call(call(G, Mid...), Last...) adds Mid before Last
+        if t[0] == "fun" and len(t[2]) >= 2:
+            args = t[2]
+            i = rng.randint(0, len(args) - 2)
+            j = rng.randint(i + 1, len(args) - 1)
+            inner = fun("call", fun(t[1], *args[:i]) if i else atom(t[1]), *args[i:j])
+            if form == 16:
+                return call(fun("call", inner, *args[j:]))
+            return conj(eq(gvar, inner), call(fun("call", gvar, *args[j:])))
+        return call(_split_call(rng, t))
     # findall with a partly bound result list
     return call(fun("findall", _template(rng, t, pool), t, rng.choice([mklist([var("E1")], var("Es")), NIL,
                                                                       mklist([var("E1"), var("E2")])])))
